@@ -650,6 +650,9 @@ class Exec:
         return [(s.eff('len', ot), VInt(M.len_(ot)))]
     def b_enumerate(self, s, args, kw, where):
         src = args[0]
+        if isinstance(src, VSlice):
+            t = self.obj(src.src)
+            return [(s.eff('enumerate', t).ev('enumerate', t), VEnum(M.fresh('enumerate_of_slice'), src))]
         t = self.obj(src)
         return [(s.eff('enumerate', t).ev('enumerate', t), VEnum(z3.Function('enumerate_of', Obj, Obj)(t), t))]
     def b_iter(self, s, args, kw, where):
@@ -738,6 +741,15 @@ class Exec:
         return self.b_linear(s, args, kw, where)
     def b_all(self, s, args, kw, where): return self.b_allany(s, args, kw, where, True)
     def b_any(self, s, args, kw, where): return self.b_allany(s, args, kw, where, False)
+    def b_minmax(self, s, args, kw, where, is_min=True):
+        if len(args) >= 2 and not kw and all(self.is_intlike(a) or isinstance(a, (VInt, VBool)) for a in args):
+            cur = self.as_int(args[0])
+            for a in args[1:]:
+                b = self.as_int(a); cur = z3.If(cur <= b, cur, b) if is_min else z3.If(cur >= b, cur, b)
+            return [(s, VInt(cur))]
+        return self.b_linear(s, args, kw, where)
+    def b_min(self, s, args, kw, where): return self.b_minmax(s, args, kw, where, True)
+    def b_max(self, s, args, kw, where): return self.b_minmax(s, args, kw, where, False)
     def b_linear(self, s, args, kw, where):
         """all()/any()/tuple()/list()/sorted()/... over a symbolic container: an operation whose cost is the container's length"""
         a = args[0] if args else None
@@ -756,7 +768,7 @@ class Exec:
     BUILTINS = {'enumerate': b_enumerate, 'id': b_id, 'super': b_super, 'dict': b_dict, 'hash': b_hash, 'isinstance': b_isinstance, 'issubclass': b_issubclass, 'len': b_len, 'iter': b_iter, 'next': b_next,
                 'getattr': b_getattr, 'bool': b_bool, 'type': b_type, 'callable': b_callable,
                 'all': b_all, 'any': b_any, 'zip': b_zip, 'tuple': b_linear, 'list': b_linear, 'set': b_linear, 'sorted': b_linear,
-                'sum': b_linear, 'min': b_linear, 'max': b_linear, 'frozenset': b_linear}
+                'sum': b_linear, 'min': b_min, 'max': b_max, 'frozenset': b_linear}
 
     # ------------------------------------------------------------ statements
     def exec_block(self, stmts, st):
@@ -1066,6 +1078,7 @@ class Exec:
             s3, ev = r2[0]
             return SymIter(it.var, it.dom, ev, it.ordered, it.lo, s3._r(env=s.env, pc=tuple(c for c in s3.pc if not c.eq(it.dom))))
         if isinstance(v, VEnum):
+            if isinstance(v.src, V): raise Unsupported('enumerate() of a slice in a summarised loop (give a loop invariant)')
             bt = v.src; j = M.fresh('j', z3.IntSort())
             ok = M.inst(bt, self.uni.const(cabc.Sequence)); self.obl(s, 'defined.enumerate_sequence', ok, 'enumerate() in a for loop is modelled for sequences only (index j, item j)'); s = s.assume(ok)
             return SymIter(j, z3.And(0 <= j, j < M.len_(bt)), VTup((VInt(j), VObj(M.item(bt, j)))), True, z3.IntVal(0), s._r(cost=s.cost + M.len_(bt), effects=s.effects + (('iterate_all', bt, 'for enumerate'),)))
@@ -1085,12 +1098,20 @@ class Exec:
         outs = []
         name = lc.get('name', 'loop')
         for s0, itv in self.eval(n.iter, st):
-            if not isinstance(itv, VObj): raise Unsupported('invariant loop over ' + type(itv).__name__)
-            B = itv.t; L = M.len_(B)
+            # the iteration source: a whole sequence, a slice seq[lo:hi] of one, or enumerate() of either; the loop index i is the ABSOLUTE
+            # index into the sequence (lo <= i < hi), the invariant is stated over it
+            enum = isinstance(itv, VEnum); src = itv.src if enum else itv
+            if enum and not isinstance(src, V): src = VObj(src)
+            if isinstance(src, VSlice):
+                B = self.obj(src.src); L = M.len_(B); lo = src.lo if src.lo is not None else z3.IntVal(0); hi = src.hi if src.hi is not None else L
+                okb = z3.And(0 <= lo, lo <= hi, hi <= L)
+                self.obl(s0, 'defined.slice_bounds', okb, 'slice bounds within the sequence (clamping / negative bounds are not modelled)'); s0 = s0.assume(okb)
+            elif isinstance(src, VObj): B = src.t; L = M.len_(B); lo = z3.IntVal(0); hi = L
+            else: raise Unsupported('invariant loop over ' + type(itv).__name__)
             ok = M.inst(B, self.uni.const(cabc.Sequence)); self.obl(s0, 'defined.iter', ok, 'invariant loop over a sequence'); s0 = s0.assume(ok)
             inv = lc['inv']; vars_ = lc['vars']
             def envof(s): return {v: s.get(v) for v in vars_}
-            self.obl(s0, f'inv.init.{name}', inv(self, z3.IntVal(0), envof(s0), B, s0), 'loop invariant holds on entry')
+            self.obl(s0, f'inv.init.{name}', inv(self, lo, envof(s0), B, s0), 'loop invariant holds on entry')
             def havoc(s, tag):
                 for v in vars_:
                     cur = s.get(v)
@@ -1099,16 +1120,16 @@ class Exec:
                     else: s = s.set(v, VObj(M.fresh(f'{v}_{tag}')))
                 return s
             i = M.fresh('i', z3.IntSort())
-            sb = havoc(s0, 'it'); sb = sb.assume(z3.And(0 <= i, i < L)).assume(inv(self, i, envof(sb), B, sb))
-            sb = self.assign(sb, n.target, VObj(M.item(B, i)))
+            sb = havoc(s0, 'it'); sb = sb.assume(z3.And(lo <= i, i < hi)).assume(inv(self, i, envof(sb), B, sb))
+            sb = self.assign(sb, n.target, VTup((VInt(i - lo), VObj(M.item(B, i)))) if enum else VObj(M.item(B, i)))
             for kind, s2, v in self.exec_block(n.body, sb):
                 if kind in ('next', 'continue'):
                     self.obl(s2, f'inv.preserve.{name}', inv(self, i + 1, envof(s2), B, s2), 'loop invariant preserved by one iteration')
                 elif kind == 'break':
                     outs.append(('next', s2.ev('loop_break', name, i), None))
                 else: outs.append((kind, s2, v))
-            se = havoc(s0, 'exit'); se = se.assume(inv(self, L, envof(se), B, se))
-            se = se.set(n.target.id, VObj(M.fresh('lastitem'))) if isinstance(n.target, ast.Name) else se
+            se = havoc(s0, 'exit'); se = se.assume(inv(self, hi, envof(se), B, se))
+            for tn in [x.id for x in ast.walk(n.target) if isinstance(x, ast.Name)]: se = se.set(tn, VObj(M.fresh('last_' + tn)))
             outs.append(('next', se.ev('loop_exhausted', name), None))
         return outs
     def s_While(self, n, st):
